@@ -290,6 +290,18 @@ func (s *IndexedState) add(ctx *Context, id string, x Map) (string, error) {
 	if err != nil {
 		return id, err
 	}
+	if old, have := s.IdToFact[id]; have {
+		// The id is being overwritten.  If it held a rule, take that
+		// rule's patterns out of the rule index first; otherwise the
+		// index keeps pointing at a fact that is no longer that rule
+		// (or no rule at all), and FindRules fails for every event
+		// that matches the former pattern.
+		if oldRule, _ := ExtractRule(ctx, old, false); oldRule != nil {
+			if err := s.unindexRule(ctx, id, oldRule); err != nil {
+				return "", err
+			}
+		}
+	}
 	if rule != nil {
 		// ToDo: Metric(ctx, "RuleUpdated", "location", s.Name, "ruleId", id)
 		Log(DEBUG, ctx, "IndexedState.add", "state", s.Name, "rule", rule, "ruleId", id)
